@@ -259,37 +259,43 @@ Fixpoint dec_accepts (ds : list dctx) (ts : list jtok) : bool :=
 (* ============================================================================================ *)
 (* 3. template expansion of ValidateTransformDeclarations                                        *)
 (* ============================================================================================ *)
-(* The declaration set as a graph: node i is a declared name, [nth i g] lists the names its
-   declaration references through `template` (an index >= length g is an undeclared name).
-   Node 0 is FINAL_OUTPUT, which is on the reference stack from the start. *)
-Definition tgraph := list (list nat).
-Inductive vres := VOk | VErrCycle | VErrMissing | VOutOfFuel.
+(* The declaration set as a graph: node i is a declared name, [nth i g] lists what its declaration
+   contains where a declaration is expected: [Some t] = a reference to name t through `template`
+   (an index >= length g is an undeclared name), [None] = a JSON null (possible below
+   `xpath_dynamic`, whose JSON schema does not constrain its content).  Node 0 is FINAL_OUTPUT,
+   which is on the reference stack from the start. *)
+Definition tgraph := list (list (option nat)).
+Inductive vres := VOk | VErrCycle | VErrMissing | VErrNull | VPanic | VOutOfFuel.
 
 (* strs.HasDup *)
 Fixpoint has_dup (l : list nat) : bool :=
   match l with [] => false | x :: r => existsb (Nat.eqb x) r || has_dup r end.
 
-(* validateDecl over the references of one declaration; validateTemplate: lookup, push, HasDup,
-   deep copy, recurse.  [fuel] bounds the recursion depth. *)
-Fixpoint expand (fuel : nat) (g : tgraph) (stack : list nat) (refs : list nat) : vres :=
+(* validateDecl over the children of one declaration.  A nil *Decl: "'<fqdn>' cannot be null" since
+   fix 86abe20 ([on_null] = VErrNull); before it validateXPath dereferenced it ([on_null] = VPanic).
+   validateTemplate: lookup, push, HasDup, deep copy, recurse.  [fuel] bounds the recursion depth. *)
+Fixpoint expand (on_null : vres) (fuel : nat) (g : tgraph) (stack : list nat) (refs : list (option nat)) : vres :=
   match fuel with
   | O => VOutOfFuel
   | S k =>
-      (fix each (refs : list nat) : vres :=
+      (fix each (refs : list (option nat)) : vres :=
          match refs with
          | [] => VOk
-         | t :: r =>
+         | None :: _ => on_null
+         | Some t :: r =>
              match nth_error g t with
              | None => VErrMissing
              | Some body =>
                  if has_dup (stack ++ [t]) then VErrCycle
-                 else match expand k g (stack ++ [t]) body with VOk => each r | e => e end
+                 else match expand on_null k g (stack ++ [t]) body with VOk => each r | e => e end
              end
          end) refs
   end.
 
 Definition validate_templates (g : tgraph) : vres :=
-  expand (length g + 1) g [0] (nth 0 g []).
+  expand VErrNull (length g + 1) g [0] (nth 0 g []).
+Definition validate_templates_old (g : tgraph) : vres :=
+  expand VPanic (length g + 1) g [0] (nth 0 g []).
 
 (* ============================================================================================ *)
 (* 4. csv delimiter validation and the jumpTo loop                                               *)
@@ -496,6 +502,77 @@ Definition line_to_column_value (start_pos len : Z) (line : bytes) : fres bytes 
   end.
 
 (* ============================================================================================ *)
+(* 6b. integer members of file_declaration: JSON schema, then json.Unmarshal                     *)
+(* ============================================================================================ *)
+(* A JSON number literal as the two layers see it: whether its value is an integer and which
+   (gojsonschema: "type":"integer" holds for 1.0 and 1e30), and whether its text is plain digits
+   (json.Unmarshal into an int accepts only those, within int64). *)
+Record intlit := mkLit { lit_integral : bool; lit_value : Z; lit_plain : bool }.
+Definition int64_ok (z : Z) : bool := (-9223372036854775808 <=? z)%Z && (z <=? 9223372036854775807)%Z.
+Definition unmarshal_int (l : intlit) : option Z :=
+  if lit_plain l && lit_integral l && int64_ok (lit_value l) then Some (lit_value l) else None.
+Definition jsonschema_int (min : option Z) (l : intlit) : bool :=
+  lit_integral l && match min with Some m => (m <=? lit_value l)%Z | None => true end.
+Inductive intres := IRejected | IStored (v : Z).
+(* ValidateSchema of a file format: [checked] = the json.Unmarshal error is returned (Gen/Safety.v:
+   <fmt>_unmarshal_checked; fix 5f762bb); unchecked, the field silently keeps its zero value *)
+Definition schema_int (checked : bool) (min : option Z) (l : intlit) : intres :=
+  if negb (jsonschema_int min l) then IRejected
+  else match unmarshal_int l with
+       | Some v => IStored v
+       | None => if checked then IRejected else IStored 0
+       end.
+
+(* ============================================================================================ *)
+(* 6c. idr/query.go wrappers over the xpath engine; javascript result classification             *)
+(* ============================================================================================ *)
+(* What Expr.Select plus iterating the result does for a compiled expression on a tree: the engine
+   panics (antchfx/xpath, e.g. a function call without node-set input), or yields n nodes. *)
+Inductive engine_res := EngPanic | EngNodes (n : nat).
+Inductive qres := QPanic | QBool (b : bool) | QErr | QNoMatch | QNode | QMoreThanExpected.
+(* [recovering] = the deferred recover() of fix e7ccd30 is there *)
+Definition match_any (recovering : bool) (e : engine_res) : qres :=
+  match e with
+  | EngPanic => if recovering then QBool false else QPanic
+  | EngNodes n => QBool (Nat.ltb 0 n)
+  end.
+Definition match_single (recovering : bool) (e : engine_res) : qres :=
+  match e with
+  | EngPanic => if recovering then QErr else QPanic
+  | EngNodes 0 => QNoMatch
+  | EngNodes 1 => QNode
+  | EngNodes _ => QMoreThanExpected
+  end.
+
+(* The completion value of a javascript, as far as JavaScriptWithContext distinguishes: *)
+Inductive jsval :=
+| JsNaNInfNullUndef      (* "result is ..." error *)
+| JsGetterThrows         (* exporting runs an accessor that throws: goja panics in Export *)
+| JsCyclic               (* plain objects / arrays containing themselves: Export terminates, the Go value is cyclic *)
+| JsMapSetSelf           (* a Map / Set containing itself: goja's Export itself recurses for ever *)
+| JsPlain.
+Inductive jsres := JsErr | JsValue | JsPanicEscapes | JsFatal.
+(* javascript.go after fixes 5427694 (export under recover) and 6fe2fc5 (isCyclic) *)
+Definition js_result (v : jsval) : jsres :=
+  match v with
+  | JsNaNInfNullUndef => JsErr
+  | JsGetterThrows => JsErr
+  | JsCyclic => JsErr
+  | JsMapSetSelf => JsFatal          (* known finding N8: no Go-side check can run first *)
+  | JsPlain => JsValue
+  end.
+(* before them; [typed] = the declaration has a result type that the value does not convert to, so
+   normalizeAndSaveValue formats it with %v *)
+Definition js_result_old (typed : bool) (v : jsval) : jsres :=
+  match v with
+  | JsNaNInfNullUndef => JsErr
+  | JsGetterThrows => JsPanicEscapes
+  | JsCyclic => if typed then JsFatal else JsValue
+  | JsMapSetSelf => JsFatal
+  | JsPlain => JsValue
+  end.
+
+(* ============================================================================================ *)
 (* 7. reads to a terminal result                                                                 *)
 (* ============================================================================================ *)
 Section Reads.
@@ -518,7 +595,8 @@ Inductive c03case :=
 | CInvoke (f : fsig) (args : list argv) (observed : N)         (* 0 error, 1 called, 2 panic *)
 | CDelim (fmt : N) (delim : bytes) (accepted : bool)           (* fmt 0 = csv, 1 = csv2 *)
 | CFixed (start_pos len : Z) (line observed : bytes)
-| CTemplates (g : list (list nat)) (root : list nat) (accepted : bool)
+| CTemplates (g : list (list (option nat))) (root : list (option nat)) (accepted : bool)
+| CIntLit (fmt : N) (l : intlit) (accepted : bool)          (* 0 fixed-length by_rows, 1 csv2 rows, 2 fixedlength2 rows *)
 | CBound (input_len reads : N).
 
 Definition READ_SLACK : N := 2.
@@ -541,8 +619,13 @@ Definition check_case (c : c03case) : bool :=
       (* the harness numbers the declared templates 0..n-1 and FINAL_OUTPUT separately; here
          FINAL_OUTPUT becomes node 0 and template i node i+1 *)
       let n := length g in
-      let sh := map (fun t => if Nat.ltb t n then S t else S n) in
+      let sh := map (option_map (fun t => if Nat.ltb t n then S t else S n)) in
       let g' := sh root :: map sh g in
       Bool.eqb (match validate_templates g' with VOk => true | _ => false end) accepted
+  | CIntLit fmt l accepted =>
+      let r := if N.eqb fmt 0 then schema_int fixed_unmarshal_checked fixed_by_rows_min l
+               else if N.eqb fmt 1 then schema_int csv2_unmarshal_checked csv2_rows_min l
+               else schema_int fixed2_unmarshal_checked fixed2_rows_min l in
+      Bool.eqb (match r with IStored _ => true | IRejected => false end) accepted
   | CBound len reads => N.leb reads (len + READ_SLACK)
   end.
